@@ -396,6 +396,10 @@ def check(ctx, rep):
 
     rule_exec_order(ctx, rep)
     rule_no_shared_mutable_default(ctx, rep)
+    from .c14 import rule_store_coherent
+
+    # the package stores are parsed once per run and shared by every codemod: a stale view of them is cross-talk between codemods
+    rule_store_coherent(ctx, rep)
     rep.not_covered += [
         "semgrep_prefilter_results is computed once before any rewrite and gates each later detector run: whether one codemod's "
         "rewrite can enable another's rule needs semgrep semantics (declined; no enabling pair could be constructed)",
